@@ -3,9 +3,11 @@
 //! the recorded fork/join history (C07, C08, C09, C12).
 
 pub mod body;
+pub mod parrun;
 pub mod runner;
 pub mod world5;
 
 pub use body::*;
+pub use parrun::*;
 pub use runner::*;
 pub use world5::*;
